@@ -45,9 +45,10 @@ def norm_prim_rule(repo, R):
     bad = []
     x = sp.Symbol("x", real=True)
     n_checked = 0
-    for tx in range(0, 4):
-        for ty in range(0, 4):
-            for tz in range(0, 4):
+    top = 6 if getattr(R, "tier", "quick") == "thorough" else 4
+    for tx in range(0, top):
+        for ty in range(0, top):
+            for tz in range(0, top):
                 n_checked += 1
                 L = tx + ty + tz
                 val = got.subs(l, L)
